@@ -4,13 +4,25 @@ for the application.
 """
 
 import argparse
+import contextlib
 import copy
 import logging
 import os
 import shutil
 import sys
 import tempfile
-from typing import Callable, Dict, List, Optional, Set, Tuple, Union, cast
+from io import TextIOWrapper
+from typing import (
+    Callable,
+    Dict,
+    Iterator,
+    List,
+    Optional,
+    Set,
+    Tuple,
+    Union,
+    cast,
+)
 
 from pymarkdown.application_file_scanner import ApplicationFileScanner
 from pymarkdown.extensions.pragma_token import PragmaToken
@@ -360,34 +372,39 @@ class FileScanHelper:
 
         # If tokens are returned, then no changes were made due to tokens and the
         # tokenized list can be reused without any worry of changes.
-        if actual_tokens:
-            assert (
-                not did_any_tokens_get_fixed
-            ), "Reusing tokens assumes that no tokens were fixed/changed."
-            POGGER.info(
-                "Scanning for token fixes did not change file.  Reusing tokens for line-by-line fixes."
-            )
-        else:
-            actual_tokens = self.__process_file_fix_rescan(
-                fix_debug, fix_nolog_rescan, next_file_two
-            )
+        try:
+            if actual_tokens:
+                assert (
+                    not did_any_tokens_get_fixed
+                ), "Reusing tokens assumes that no tokens were fixed/changed."
+                POGGER.info(
+                    "Scanning for token fixes did not change file.  Reusing tokens for line-by-line fixes."
+                )
+            else:
+                actual_tokens = self.__process_file_fix_rescan(
+                    fix_debug, fix_nolog_rescan, next_file_two
+                )
 
-        # As the lines are processed, a new temporary line file is written to. If either
-        # tokens were fixed or lines were fixed, the file contents of the file
-        # temporary_line_file_name will contain the updated document.
-        (
-            this_file_fix_line_records,
-            temporary_line_file_name,
-            collected_line_triggers,
-        ) = self.__process_file_fix_lines(
-            next_file_two,
-            next_file_name,
-            actual_tokens,
-            fix_debug,
-            fix_file_debug,
-            fix_list,
-            collect_list,
-        )
+            # As the lines are processed, a new temporary line file is written to. If either
+            # tokens were fixed or lines were fixed, the file contents of the file
+            # temporary_line_file_name will contain the updated document.
+            (
+                this_file_fix_line_records,
+                temporary_line_file_name,
+                collected_line_triggers,
+            ) = self.__process_file_fix_lines(
+                next_file_two,
+                next_file_name,
+                actual_tokens,
+                fix_debug,
+                fix_file_debug,
+                fix_list,
+                collect_list,
+            )
+        except Exception:
+            if next_file_two != next_file and os.path.exists(next_file_two):
+                os.remove(next_file_two)
+            raise
 
         # If anything was fixed, copy the temporary file on top of the original file
         # that was scanned.
@@ -527,6 +544,20 @@ class FileScanHelper:
 
     # pylint: enable=too-many-arguments, too-many-locals
 
+    @staticmethod
+    @contextlib.contextmanager
+    def __open_removed_on_error(file_name: str) -> Iterator[TextIOWrapper]:
+        """
+        Open the file for writing text, removing it again if the block raises.
+        """
+        try:
+            with open(file_name, "wt", encoding="utf-8") as output_file:
+                yield output_file
+        except Exception:
+            if os.path.exists(file_name):
+                os.remove(file_name)
+            raise
+
     # pylint: disable=too-many-arguments, too-many-locals
     def __process_file_fix_lines(
         self,
@@ -541,7 +572,7 @@ class FileScanHelper:
         source_provider = FileSourceProvider(next_file)
         with tempfile.NamedTemporaryFile() as temp_output:
             temporary_file_name = temp_output.name
-        with open(temporary_file_name, "wt", encoding="utf-8") as source_file:
+        with FileScanHelper.__open_removed_on_error(temporary_file_name) as source_file:
             POGGER.info("Scanning before line-by-line fixes.")
             fix_context = self.__plugins.starting_new_file(
                 next_file_name,
